@@ -182,6 +182,7 @@ def element_parsing(
     same_part: bool,
     doc_lines: np.array,
     line2pos: dict,
+    sub_spine: bool = False,
 ):
     """
     Parse and add musical elements to a part.
@@ -200,6 +201,8 @@ def element_parsing(
         Array of document lines corresponding to the elements.
     line2pos : dict
         Dictionary mapping document lines to their part start positions.
+    sub_spine : bool
+        Flag indicating that the elements are a sub-spine split off the spine parsed before.
 
     Returns
     -------
@@ -215,7 +218,15 @@ def element_parsing(
 
     for i in range(elements.shape[0]):
         element = elements[i]
-        if i < len(doc_lines):
+        # The position recorded for a line is where the spine that recorded it stood: the start
+        # of its note on a line with a note, but the END of its last note on an interpretation
+        # line, which is later than the line whenever that note is still sounding. So only a
+        # line with a note places the elements, and the split that starts a sub-spine (recorded
+        # by the spine it splits off, which stands at the split).
+        if i < len(doc_lines) and (
+            isinstance(element, (spt.GenericNote, tuple))
+            or (sub_spine and isinstance(element, KernElement) and element.voice_start)
+        ):
             current_tl_pos = line2pos.get(doc_lines[i], current_tl_pos)
 
         # Handle editorial elements
@@ -265,6 +276,9 @@ def element_parsing(
                 part.add(element, start=current_tl_pos)
                 line2pos[doc_lines[i]] = current_tl_pos
             else:
+                if not sub_spine:
+                    # a further spine of the part: its sub-spines start where it splits
+                    line2pos[doc_lines[i]] = current_tl_pos
                 if isinstance(element, spt.Measure):
                     current_tl_pos = measure_mapping[element.number]
                 elif isinstance(element, spt.Clef) and not any(
@@ -335,6 +349,10 @@ def load_kern(
         if np.any(has_part_global)
         else p_same_part
     )
+    # sub-spines: the columns split off the spine in the column before
+    sub_spines = [
+        j > 0 and parsing_idxs[j] == parsing_idxs[j - 1] for j in range(len(splines))
+    ]
     # Assign all splines to the same part if necessary
     if p_same_part or force_same_part:
         parsing_idxs[:] = 0
@@ -423,15 +441,22 @@ def load_kern(
         part.set_quarter_duration(0, divs_pq)
 
     line2pos = {}
-    for part, elements, total_duration_values, same_part, doc_lines in zip(
+    for part, elements, total_duration_values, same_part, doc_lines, sub_spine in zip(
         copy_partlist,
         elements_list,
         total_durations_list,
         part_assignments,
         doc_lines_per_spline,
+        sub_spines,
     ):
         line2pos = element_parsing(
-            part, elements, total_duration_values, same_part, doc_lines, line2pos
+            part,
+            elements,
+            total_duration_values,
+            same_part,
+            doc_lines,
+            line2pos,
+            sub_spine,
         )
 
     for i, part in enumerate(copy_partlist):
